@@ -1,7 +1,7 @@
 (* C18 - Moment-imposing transforms hit their target and keep what they promise to keep; the statistics, norms and
    metrics equal their textbook definitions.
    Only statements, each closed by [exact] of a lemma proved in Pure/Measures_Proofs.v (reals, NumR instance of the
-   model in Pure/Measures.v) or Pure/Measures_Refuted.v (exact-rational witnesses).
+   model in Pure/Measures.v) or Pure/Measures_Refuted.v (exact-rational runs of the model).
 
    Reading guide.  [W : option (list R)] is the Python [weights] argument ([None] = unweighted);
    [wl x W] are the weights actually used (unit weights for [None]); [wf x W] says that the statistic is defined:
@@ -237,45 +237,29 @@ Theorem C18_impose_collapse_keeps_mean : forall pairs x w y wts,
 Proof. exact impose_collapse_keeps_mean. Qed.
 Print Assumptions C18_impose_collapse_keeps_mean.
 
-(* FULL STATEMENT (refuted, known finding "cyclic-pairs-total-weight"):
-     forall pairs x w y wts, impose_collapse pairs x w = Some (y, wts) -> sum wts = sum w. *)
-Theorem C18_impose_collapse_keeps_total_refuted :
-  exists (pairs : list (Z * Z)) (x w y wts : list QArith_base.Q),
-    impose_collapse NumQ pairs x w = Some (y, wts) /\ ~ (QArith_base.Qeq (nsum NumQ wts) (nsum NumQ w)).
-Proof. exact impose_collapse_keeps_total_refuted. Qed.
-Print Assumptions C18_impose_collapse_keeps_total_refuted.
+(* the dict returned by tools.connected (as repaired in /repo): keys are unique, no key is a member of any group
+   (in particular not of its own), and groups with different keys share no member *)
+Theorem C18_connected_groups_disjoint : forall ps,
+  NoDup (map fst (connected ps)) /\
+  (forall e e', In e (connected ps) -> In e' (connected ps) -> ~ In (fst e) (snd e')) /\
+  (forall e e', In e (connected ps) -> In e' (connected ps) -> fst e <> fst e' ->
+     forall a, In a (snd e) -> ~ In a (snd e')).
+Proof. exact connected_groups_disjoint. Qed.
+Print Assumptions C18_connected_groups_disjoint.
 
-(* what does hold: the total is preserved whenever tools.connected leaves no key inside its own member set
-   (missing for the full statement: pair sets with a self pair, a repeated/symmetric pair or a cycle) *)
-Theorem C18_impose_collapse_keeps_total_partial : forall pairs ps x w y wts,
-  length x = length w ->
+(* FULL: for every pair selection (self pairs, symmetric/repeated pairs, cycles, chains) the total weight is kept *)
+Theorem C18_impose_collapse_keeps_total : forall pairs x w y wts,
+  length x = length w -> impose_collapse NumR pairs x w = Some (y, wts) -> Rsum wts = Rsum w.
+Proof. exact impose_collapse_keeps_total. Qed.
+Print Assumptions C18_impose_collapse_keeps_total.
+
+(* FULL: for every pair selection, every member of every group ends with weight exactly 0 *)
+Theorem C18_impose_collapse_zeroes_members : forall pairs ps x w y wts,
   all_some (map (pair_index (length w)) pairs) = Some ps ->
-  Forall (fun e => ~ In (fst e) (snd e)) (connected ps) ->
-  impose_collapse NumR pairs x w = Some (y, wts) ->
-  Rsum wts = Rsum w.
-Proof. exact impose_collapse_keeps_total_partial. Qed.
-Print Assumptions C18_impose_collapse_keeps_total_partial.
-
-(* FULL STATEMENT (refuted, known finding "chained-pairs-not-merged"):
-     after impose_collapse, of the two ends of every selected pair (i,j), i<>j, at most one carries weight. *)
-Theorem C18_impose_collapse_pair_zeroed_refuted :
-  exists (pairs : list (Z * Z)) (x w y wts : list QArith_base.Q) (i j : nat),
-    impose_collapse NumQ pairs x w = Some (y, wts) /\
-    In (Z.of_nat i, Z.of_nat j) pairs /\ i <> j /\
-    ~ (QArith_base.Qeq (nth i wts (QArith_base.Qmake 0 1)) (QArith_base.Qmake 0 1)) /\
-    ~ (QArith_base.Qeq (nth j wts (QArith_base.Qmake 0 1)) (QArith_base.Qmake 0 1)).
-Proof. exact impose_collapse_pair_zeroed_refuted. Qed.
-Print Assumptions C18_impose_collapse_pair_zeroed_refuted.
-
-(* what does hold: when no member of a set is also a key (tools.connected merged every component), every member
-   ends with weight exactly 0 (missing: pair sets in which a later pair links two existing dict entries) *)
-Theorem C18_impose_collapse_zeroes_members_partial : forall pairs ps x w y wts,
-  all_some (map (pair_index (length w)) pairs) = Some ps ->
-  (forall e e', In e (connected ps) -> In e' (connected ps) -> ~ In (fst e) (snd e')) ->
   impose_collapse NumR pairs x w = Some (y, wts) ->
   forall e k, In e (connected ps) -> In k (snd e) -> nth k wts 0 = 0.
-Proof. exact impose_collapse_zeroes_members_partial. Qed.
-Print Assumptions C18_impose_collapse_zeroes_members_partial.
+Proof. exact impose_collapse_zeroes_members. Qed.
+Print Assumptions C18_impose_collapse_zeroes_members.
 
 Theorem C18_impose_collapse_out_of_range : forall pairs ps x w,
   all_some (map (pair_index (length w)) pairs) = Some ps ->
@@ -392,6 +376,11 @@ Example C18_data_premises_satisfiable :
   wf x (Some w) /\ wf x None /\ Rsum (keep_weights NumR (Some [0; -1]%Z) w) <> 0 /\
   Rsum (drop_weights NumR (Some [1]%Z) w) <> 0 /\ CM 2 x w <> 0.
 Proof. exact data_premises. Qed.
+
+(* the two pair selections that used to break impose_collapse now satisfy the property in the model *)
+Example C18_collapse_former_witnesses :
+  connected [(0, 1); (1, 0)]%nat = [(0, [1])]%nat /\ connected [(0, 1); (2, 3); (0, 2)]%nat = [(0, [1; 3; 2])]%nat.
+Proof. exact (conj (proj1 (proj2 (proj2 collapse_former_witnesses))) (proj1 (proj2 (proj2 (proj2 collapse_former_witnesses))))). Qed.
 
 (* the executable model does compute the expected transforms (exact rationals) *)
 Example C18_model_runs :
